@@ -86,7 +86,15 @@ pub fn child_main(args: &[String]) -> i32 {
     let spec: HistorySpec = serde_json::from_str(&std::fs::read_to_string(&args[1]).expect("spec file")).expect("spec json");
     let start: usize = args[2].parse().expect("start_round");
     let kill: Kill = serde_json::from_str(&args[3]).expect("kill json");
-    with_metric!(spec.metric, D => child_run::<D>(&dir, &spec, start, &kill))
+    // a panic of the library in a fault-free child (no kill reached yet) is reported to the parent, which
+    // discards the case: it is the business of the properties that own "the build succeeds"
+    match crate::engine::catch(|| with_metric!(spec.metric, D => child_run::<D>(&dir, &spec, start, &kill))) {
+        Ok(code) => code,
+        Err(p) => {
+            say(&format!("BUILDFAIL 0 panic: {} at {}", p.message.replace('\n', " "), p.location));
+            3
+        }
+    }
 }
 
 fn say(s: &str) {
